@@ -226,7 +226,15 @@ def fixed_engines():
     e6 = mk((), (0, 0), ['task', 'task'], [0, 0], [(0, 0, 0)], style='classic')
     e6['algs'][1]['name'] = 'a10'  # a name that extends another one: p0.a1 / p0.a10
     e6['algs'][0]['name'] = 'a1'
+    # a state vector without keys on a fresh instance (its values are named at run time) next to an ordinary one:
+    # it is not a versioned item - nothing is ever persisted for it, so it must never make its owner look changed
+    e7 = mk((), (0,), ['task'], [0], [(0, 0, 0)], style='classic')
+    e7['algs'][0]['svs'].append(['svz', []])
+    e8 = mk(((0, 1),), (0, 1), ['task', 'analysis'], [0, 0], [(1, 0, 0)], style='base')
+    e8['algs'][1]['svs'].insert(0, ['sva', []])
     return [
+        e7,
+        e8,
         mk((), (0,), ['task'], [0], [(0, 0, 0)], style='classic'),
         mk((), (0,), ['analysis'], [3], [(0, 0, 0)], style='auto'),
         mk(((0, 1),), (0, 1), ['task', 'analysis'], [0, 0], [(1, 0, 0)], style='base'),
